@@ -4,7 +4,16 @@ forecaster / composite built on them)."""
 import math
 from fractions import Fraction
 import fcmachine as M
-from fcmachine import to_line, run_real, compare
+import predint as PI
+from fcmachine import compare
+
+
+def to_line(c):
+    return PI.to_line(c) if c.get("kind") == "pi" else M.to_line(c)
+
+
+def run_real(c):
+    return PI.run_real(c) if c.get("kind") == "pi" else M.run_real(c)
 
 PROP = "C03"
 LEAN_MODULE = "SkVerif.Props.C03"
@@ -24,7 +33,10 @@ OBLIGATIONS = [
     "SkVerif.C03.shift_equivariance",
     "SkVerif.C03.refit_forgets_history",
     "SkVerif.C03.refit_forgets_history_required",
+    "SkVerif.C10.interval_tables_labelled_like_forecast",
+    "SkVerif.C10.point_forecasts_independent_of_interval_arguments",
 ]
+EXTRA_LEAN_MODULES = ["SkVerif.Props.C10"]      # the prediction-interval layer's theorems live with C10 (Model/PredInt.lean)
 TRUSTED = ["hand-written model SkVerif/Model/Forecaster.lean + Series.lean of the forecaster base classes",
            "concrete cores (naive last/mean, harness probe forecaster) in Model/Cores.lean; every other forecaster is 'opaque': only its index/cutoff behaviour is compared"]
 ASSUMPTIONS = ["integer time index only (RangeIndex / Int64Index)", "values of opaque forecasters (trend, reductions, ensembles, pipelines, stacking, multiplexer, tuner, statsmodels adapters) are not modelled; finiteness is observed by the oracle",
@@ -46,6 +58,8 @@ def _last(s):
 
 
 def oracle(c, out):
+    if c.get("kind") == "pi":
+        return PI.label_oracle(c, out)
     """The C03 statement evaluated on the real observations.  Domain: out-of-sample horizons,
     data arriving in time order (every batch ends at or after every label seen before)."""
     fails = []
@@ -201,10 +215,14 @@ def _opaque_nonfinite(c):
 
 
 def nontrivial(c, out):
+    if c.get("kind") == "pi":
+        return PI.nontrivial(c, out)
     return "S[" in out or "F[" in out
 
 
 def features(c, out):
+    if c.get("kind") == "pi":
+        return PI.features(c, out)
     f = ["core=" + (c["core"] if not c["core"].startswith("opaque") else "opaque"), "mode=" + c["mode"], "shift=%s" % ("0" if not c.get("shift") else "nz")]
     if c["core"].startswith("opaque"):
         f.append("forecaster=" + c["core"].split(":")[1])
@@ -359,10 +377,17 @@ def gen_cases(tier, rng):
                           "shift": rng.choice([0, 7, 1000]) if j % 2 else 0, "range": rng.random() < 0.5})
     for cc in cases:
         cc.setdefault("other", rng.random() < 0.3)      # a second object of the same kind is used in between
+    # the interval entry points (return_pred_int / alpha through predict, update_predict_single, update_predict):
+    # forecasts and interval tables are labelled by the requested horizon from the current cutoff (Model/PredInt.lean)
+    for cc in PI.gen_cases(tier, rng):
+        cases.append(dict(cc, prop=PROP, theta=False))
     return cases
 
 
 def shrink(c):
+    if c.get("kind") == "pi":
+        yield from PI.shrink(c)
+        return
     ops = c["ops"]
     for i in range(len(ops) - 1, 0, -1):
         yield dict(c, ops=ops[:i] + ops[i + 1:])
